@@ -93,6 +93,28 @@ def run(tier):
             report.fail({"site": "api", "kind": kind, "code": code},
                         {"request": name, "observed": o["smiles"], "row": r, "problem": f"Glycan('{name}') {what}",
                          "replay_cmd": f"PYTHONPATH=/repo /venv/bin/python -c \"from glyles import Glycan; print(Glycan('{name}').get_smiles())\""})
+    # 3. the anomer-changing API the merger uses on these entries (Monomer.alpha / beta / undefined): from any of the three
+    #    forms of a code it gives the a row, the b row and the row without anomer
+    import random as _random
+    codes = sorted(set(api_name(r_) for r_ in table if r_["config"] == 0 and r_["table"] in ("p", "f") and api_name(r_) and r_["name"] not in ("Unk", "Api")))
+    rr = C.rng(PROP + ":api")
+    sample = codes if tier == "thorough" else rr.sample(codes, min(len(codes), 30))
+    n_api3 = 0
+    for rec in C.run_impl_parallel("monomer_api", sample):
+        if rec.get("exc") or "api" not in rec:
+            continue
+        n_api3 += 1
+        report.case("monomer-api:" + rec["name"], True)
+        d_ = rec["direct"]
+        for src, res_ in rec["api"].items():
+            for tgt in ("a", "b", "u"):
+                if d_[tgt] and res_[tgt] and drv.call("same", d_[tgt], res_[tgt]) != "1":
+                    report.fail({"site": "monomer-api", "kind": f"{src}->{tgt}", "code": rec["name"]},
+                                {"code": rec["name"], "from_form": src, "asked_for": tgt, "observed": res_[tgt], "expected_the_row": d_[tgt],
+                                 "problem": "Monomer.alpha / beta / undefined does not give the library's entry of that anomeric form"})
+        if d_["u"] and drv.call("same", d_["u"], rec["chained_b_alpha_undefined"]) != "1":
+            report.fail({"site": "monomer-api", "kind": "b->a->u", "code": rec["name"]},
+                        {"code": rec["name"], "observed": rec["chained_b_alpha_undefined"], "expected_the_row": d_["u"]})
     drv.close()
     if broken and not report.violations:
         report.fail({"site": "proof", "kind": "obligation-broken"},
